@@ -92,6 +92,9 @@ def run(ctx):
         ctx.extra["e2e_traces"] = len(vlib.split_traces(ev2))
         ctx.judge(sd, "KeepE2ETrace", "Judge_KeepE2E.cfg", ev2, scenario_of={s["id"]: s for s in e2e})
         ctx.evaluations += ctx.extra["e2e_traces"]
+        # the same scenarios against REAL keepstore handlers (Directory volumes) behind the real keepclient
+        import C12_e2e_real
+        ctx.evaluations += C12_e2e_real.run_part(ctx, e2e, max_scenarios=(None if ctx.thorough else 1500))
     nontrivial = set()
     for t in traces:
         if len(t[0]["ref"]) >= 2:
